@@ -51,7 +51,11 @@ func Desc%[1]sw(t reflect.Type, depth int) string {
 	case reflect.Map:
 		return "map[" + Desc%[1]sw(t.Key(), depth+1) + "]" + Desc%[1]sw(t.Elem(), depth+1)
 	case reflect.Struct:
-		s := t.Name() + "{"
+		name := t.Name()
+		if i := strings.IndexByte(name, '['); i >= 0 {
+			name = name[:i] // type arguments are printed with their (obfuscated) package path
+		}
+		s := name + "{"
 		for i := 0; i < t.NumField(); i++ {
 			fd := t.Field(i)
 			s += fd.Name + ":" + Desc%[1]sw(fd.Type, depth+1) + ";"
